@@ -67,6 +67,10 @@ func (g *partialStructGen) GenerateType(c gengo.Context, named *types.Named) err
 		for _, spec := range d.Specs {
 			switch x := spec.(type) {
 			case *ast.TypeSpec:
+				if x.Name.Name != name {
+					// grouped declaration: only the spec of this type names its origin
+					continue
+				}
 				switch x := x.Type.(type) {
 				case *ast.Ident:
 					switch x := pkg.ObjectOf(x).(type) {
